@@ -65,6 +65,7 @@ type tr struct {
 	fset     *token.FileSet
 	errs     []string
 	loopN    int
+	loopID   map[token.Pos]int // 3-clause / condition loops numbered in source order
 	retWrap  func(string) string // how a `return e` is rendered in the current context
 	funcRet  func(string) string // how a `return e` is rendered at function level
 	loopVars []string            // non-nil inside a loop body: state tuple of the loop
@@ -312,10 +313,26 @@ func (x *tr) assigned(stmts []ast.Stmt) []string {
 			}
 		case *ast.IncDecStmt:
 			note(v.X)
+		case *ast.DeclStmt:
+			if gd, ok := v.Decl.(*ast.GenDecl); ok {
+				for _, sp := range gd.Specs {
+					if vs, ok := sp.(*ast.ValueSpec); ok {
+						for _, n := range vs.Names {
+							decl[n.Name] = true
+						}
+					}
+				}
+			}
 		case *ast.ExprStmt:
 			if c, ok := v.X.(*ast.CallExpr); ok {
-				if _, ok := x.t.Effects[x.src(c.Fun)]; ok {
-					set["fx"] = true
+				if fn, ok := x.t.Effects[x.src(c.Fun)]; ok {
+					tv := "fx"
+					if i := strings.Index(fn, ":="); i > 0 {
+						tv = fn[:i]
+					}
+					if !decl[tv] {
+						set[tv] = true
+					}
 				}
 			}
 		case *ast.RangeStmt:
@@ -398,11 +415,15 @@ func (x *tr) stmts(list []ast.Stmt, fall string, ind string) string {
 				return next()
 			}
 			if fn, ok := x.t.Effects[x.src(c.Fun)]; ok {
-				args := []string{"fx"}
+				tv := "fx"
+				if i := strings.Index(fn, ":="); i > 0 {
+					tv, fn = fn[:i], fn[i+2:]
+				}
+				args := []string{tv}
 				for _, a := range c.Args {
 					args = append(args, x.expr(a))
 				}
-				return "let fx := (" + fn + " " + strings.Join(args, " ") + ")\n" + ind + next()
+				return "let " + tv + " := (" + fn + " " + strings.Join(args, " ") + ")\n" + ind + next()
 			}
 		}
 		return x.errf("statement %s", x.src(v))
@@ -684,6 +705,16 @@ func (x *tr) rangeLoop(v *ast.RangeStmt, rest []ast.Stmt, fall, ind string) stri
 		}
 	}
 	vars := x.assigned(v.Body.List)
+	if elem != "_" { // the range variable itself may be re-bound in the body (value copy): never loop state
+		k := 0
+		for _, n := range vars {
+			if n != elem {
+				vars[k] = n
+				k++
+			}
+		}
+		vars = vars[:k]
+	}
 	st := tuple(vars)
 	ind2 := ind + "    "
 	body := x.loopBody(v.Body.List, vars, ind2)
@@ -713,8 +744,10 @@ func lamPat(st string) string {
 }
 
 func (x *tr) forLoop(v *ast.ForStmt, rest []ast.Stmt, fall, ind string) string {
-	k := x.loopN
-	x.loopN++
+	k, known := x.loopID[v.Pos()]
+	if !known {
+		k = len(x.t.Fuel)
+	}
 	if k >= len(x.t.Fuel) {
 		return x.errf("loop %d has no fuel expression in the target table", k)
 	}
@@ -830,6 +863,13 @@ func translate(t *target) (string, []string) {
 	if t.Partial {
 		fall = "(some " + fall + ")"
 	}
+	x.loopID = map[token.Pos]int{}
+	ast.Inspect(fd.Body, func(n ast.Node) bool {
+		if f, ok := n.(*ast.ForStmt); ok {
+			x.loopID[f.Pos()] = len(x.loopID)
+		}
+		return true
+	})
 	body := x.stmts(fd.Body.List, fall, "  ")
 	doc := t.Doc
 	if doc == "" {
